@@ -108,8 +108,10 @@ def run_check():
                         "nd class, spectrum kind, dir order, dtype, parameter class); non-trivial = energy in ≥2 frequencies and ≥2 directions")
     ck.do_audit()
     import_ws()
-    n = 240 if ck.tier == "quick" else 2000
-    recs = [r for r in pmap(make_case, [(ck.seed, i) for i in range(n)]) if r is not None]
+    n = 180 if ck.tier == "quick" else 2000
+    from ..common import replay_ids
+
+    recs = [r for r in pmap(make_case, [(ck.seed, i) for i in replay_ids(ck, n)]) if r is not None]
     # light correspondence: the model of C01 on S (ties the theorems' model to the code inside this check too)
     reqs = []
     for r in recs:
@@ -119,7 +121,7 @@ def run_check():
                               enc_v(z), enc_v(z)]))
     resps = run_driver(reqs)
     for r, resp in zip(recs, resps):
-        case = dict(mode=r["mode"], freq=r["freq"].tolist(), dirs=r["dirs"].tolist(), E=r["E"].tolist(), dtype=r["dtype"],
+        case = dict(icase=r["icase"], mode=r["mode"], freq=r["freq"].tolist(), dirs=r["dirs"].tolist(), E=r["E"].tolist(), dtype=r["dtype"],
                     **{k: r[k] for k in ("k", "a", "expr", "kw") if k in r})
         pclass = ("k<1" if r.get("k", 1) < 1 else "k>1") if r["mode"] == "scale" else \
                  ("bins" if r["mode"] == "rotate" and abs((r["a"] * len(r["dirs"]) / 360) - round(r["a"] * len(r["dirs"]) / 360)) < 1e-9 else
